@@ -43,9 +43,12 @@ Compiler/Compile.vos Compiler/Compile.vok Compiler/Compile.required_vos: Compile
 Properties/C06.vo Properties/C06.glob Properties/C06.v.beautified Properties/C06.required_vo: Properties/C06.v Compiler/Compile.vo
 Properties/C06.vio: Properties/C06.v Compiler/Compile.vio
 Properties/C06.vos Properties/C06.vok Properties/C06.required_vos: Properties/C06.v Compiler/Compile.vos
-Properties/C15.vo Properties/C15.glob Properties/C15.v.beautified Properties/C15.required_vo: Properties/C15.v Compiler/Compile.vo
-Properties/C15.vio: Properties/C15.v Compiler/Compile.vio
-Properties/C15.vos Properties/C15.vok Properties/C15.required_vos: Properties/C15.v Compiler/Compile.vos
+Proofs/EmitProofs.vo Proofs/EmitProofs.glob Proofs/EmitProofs.v.beautified Proofs/EmitProofs.required_vo: Proofs/EmitProofs.v Compiler/Emit.vo
+Proofs/EmitProofs.vio: Proofs/EmitProofs.v Compiler/Emit.vio
+Proofs/EmitProofs.vos Proofs/EmitProofs.vok Proofs/EmitProofs.required_vos: Proofs/EmitProofs.v Compiler/Emit.vos
+Properties/C15.vo Properties/C15.glob Properties/C15.v.beautified Properties/C15.required_vo: Properties/C15.v Compiler/Compile.vo Proofs/EmitProofs.vo
+Properties/C15.vio: Properties/C15.v Compiler/Compile.vio Proofs/EmitProofs.vio
+Properties/C15.vos Properties/C15.vok Properties/C15.required_vos: Properties/C15.v Compiler/Compile.vos Proofs/EmitProofs.vos
 Properties/C16.vo Properties/C16.glob Properties/C16.v.beautified Properties/C16.required_vo: Properties/C16.v Compiler/Compile.vo Proofs/SrcMapProofs.vo
 Properties/C16.vio: Properties/C16.v Compiler/Compile.vio Proofs/SrcMapProofs.vio
 Properties/C16.vos Properties/C16.vok Properties/C16.required_vos: Properties/C16.v Compiler/Compile.vos Proofs/SrcMapProofs.vos
